@@ -31,6 +31,7 @@ def run(chk, tier):
     chk.guarded(r_cycle, P, tier)
     chk.guarded(r_num_days_in_month, P)
     chk.guarded(r_isoweek_accessors, P)
+    chk.guarded(r_opt_wrappers, P, tier)
     chk.assume("the branchy arithmetic that combines the verified tables (from_isoywd_opt spill, cycle_to_yo, succ/pred rollover) "
                "is not decided here")
     return {
@@ -632,3 +633,8 @@ def r_isoweek_accessors(chk, P):
         chk.ok("value")
     for fn, (a, got, want) in sorted(bad.items()):
         chk.bad(fn, "IsoWeek::%s of (year, week, flags) = %s folds to %s, expected %s" % (fn, a, got, want), loc=P.loc(IW + "::" + fn))
+
+
+def r_opt_wrappers(chk, P, tier=None):
+    import rules
+    rules.opt_wrappers(chk, P, ("naive::date::NaiveDate::",), floor=11)
